@@ -36,10 +36,12 @@ BASE_INDENTS = ['', '', '  ', '\t', '      ']
 class Tree:
     "Explicit abbreviation tree -> string + tabstop count"
 
-    def __init__(self, rng, explicit=False, allow_text=True, max_nodes=9):
+    def __init__(self, rng, explicit=False, allow_text=True, max_nodes=9, wrap=None):
         self.rng = rng
         self.explicit = explicit
         self.allow_text = allow_text
+        self.wrap = wrap            # the config's wrap text (None, str or list of non-empty lines)
+        self.implicit_used = False
         self.budget = rng.randint(1, max_nodes)
         self.values = 0
         self.fields_written = 0
@@ -101,6 +103,10 @@ class Tree:
                     node['attrs'].append((a, 'value', pick(rng, ['v', 'a b', 'v$', '1', '\U0001F600', 'e\u0301x'])))
         if maybe(rng, 0.15):
             node['repeat'] = rng.randint(1, 3)
+        elif self.wrap is not None and not self.implicit_used and maybe(rng, 0.3):
+            # implicit repeater: one copy per line of the wrap text
+            node['repeat'] = '*'
+            self.implicit_used = True
         r = rng.random()
         if self.budget > 0 and depth < 5 and r < 0.55:
             n = pick(rng, [1, 1, 2, 3])
@@ -178,27 +184,75 @@ def print_item(it):
         s += '{' + it['text'][1] + '}'
     if it['selfclose']:
         s += '/'
-    if it['repeat']:
+    if it['repeat'] == '*':
+        s += '*'
+    elif it['repeat']:
         s += '*%d' % it['repeat']
     if it['children']:
         s += '>' + print_items(it['children'])
     return s
 
 
-def count_tabstops(items, mult=1):
+def deepest_last(items):
+    "The element that wrap text is inserted into: last item, last child, ... (None for an empty list)"
+    if not items:
+        return None
+    it = items[-1]
+    if it.get('group'):
+        return deepest_last(it['children'])
+    if it['children']:
+        return deepest_last(it['children'])
+    return it
+
+
+def is_empty_leaf(it):
+    return it is not None and not it['children'] and not it['text'] and not it['selfclose']
+
+
+def has_implicit(items):
+    for it in items:
+        if it.get('repeat') == '*' or has_implicit(it['children']):
+            return True
+    return False
+
+
+def count_with_wrap(items, wrap):
+    """Tabstop count when the config carries wrap text: the text goes into the deepest last
+    element (of every copy of the implicitly repeated element, or of the whole abbreviation
+    if there is none), which therefore is no empty leaf any more."""
+    if wrap is None:
+        return count_tabstops(items)
+    k = len(wrap) if isinstance(wrap, list) else 1
+    n = count_tabstops(items, 1, k)
+    if not has_implicit(items):
+        if is_empty_leaf(deepest_last(items)):
+            n -= 1
+    return n
+
+
+def count_tabstops(items, mult=1, k=1):
     "Empty attribute values + empty non-self-closed leaves, with repetition"
     n = 0
     for it in items:
-        m = mult * (it.get('repeat') or 1)
+        if it.get('repeat') == '*':
+            m = mult * k
+            # the k copies of the FIRST execution of the implicitly repeated element receive one
+            # line of the wrap text each, in their deepest last element (later executions under a
+            # repeated parent are unrolled to k copies as well but get no text)
+            target = deepest_last(it['children']) if it['children'] else it
+            if is_empty_leaf(target):
+                n -= k
+        else:
+            m = mult * (it.get('repeat') or 1)
         if it.get('group'):
-            n += count_tabstops(it['children'], m)
+            n += count_tabstops(it['children'], m, k)
             continue
         for _name, kind, _val in it['attrs']:
             if kind in ('empty', 'emptyq'):
                 n += m
         if not it['children'] and not it['text'] and not it['selfclose']:
             n += m
-        n += count_tabstops(it['children'], m)
+        n += count_tabstops(it['children'], m, k)
     return n
 
 
@@ -215,23 +269,23 @@ def used_names(items, names=None, attrs=None):
     return names, attrs
 
 
-def counted_meta(items):
+def counted_meta(items, wrap=None):
     names, attrs = used_names(items)
-    return {'mode': 'auto', 'expect': count_tabstops(items), 'names': sorted(names), 'attrs': sorted(attrs)}
+    return {'mode': 'auto', 'expect': count_with_wrap(items, wrap), 'names': sorted(names), 'attrs': sorted(attrs), 'wrap': wrap}
 
 
-def gen_markup_counted(rng):
-    t = Tree(rng, explicit=False, allow_text=True)
+def gen_markup_counted(rng, wrap=None):
+    t = Tree(rng, explicit=False, allow_text=True, wrap=wrap)
     items = t.root()
-    return print_items(items), counted_meta(items)
+    return print_items(items), counted_meta(items, wrap)
 
 
-def gen_markup_explicit(rng):
-    t = Tree(rng, explicit=True, allow_text=True)
+def gen_markup_explicit(rng, wrap=None):
+    t = Tree(rng, explicit=True, allow_text=True, wrap=wrap)
     items = t.root()
     abbr = print_items(items)
     if t.fields_written == 0:
-        return abbr, counted_meta(items)
+        return abbr, counted_meta(items, wrap)
     return abbr, {'mode': 'explicit'}
 
 
@@ -287,6 +341,9 @@ def gen_c13(run_seed):
                                  ('bem.enabled', [True], 0.15), ('inlineElements', [['span', 'em', 'b', 'i', 'strong', 'q'], []], 0.15)):
                 if maybe(rng, p):
                     opts[key] = pick(rng, vals)
+            if family in ('html', 'indent') and maybe(rng, 0.25):
+                # wrap text (plain, non-empty lines): goes into the deepest last element
+                spec['text'] = pick(rng, [['foo'], ['foo', 'bar baz'], ['one', 'two', 'x < y'], 'single', 'two words'])
             if family == 'free':
                 if maybe(rng, 0.5):
                     spec['text'] = gen_text(rng)
@@ -321,9 +378,9 @@ def gen_c13(run_seed):
             op['c13'] = {'mode': 'positions'}
         else:
             if maybe(rng, 0.5):
-                op['abbr'], op['c13'] = gen_markup_counted(rng)
+                op['abbr'], op['c13'] = gen_markup_counted(rng, spec.get('text'))
             else:
-                op['abbr'], op['c13'] = gen_markup_explicit(rng)
+                op['abbr'], op['c13'] = gen_markup_explicit(rng, spec.get('text'))
         if maybe(rng, fault_rate):
             k = pick(rng, ['F3', 'F3', 'F5', 'F1'])
             if k == 'F3':
